@@ -43,7 +43,7 @@ func runC03(c *Ctx, r *Rec) {
 		}
 	}
 	if listF == nil || mapF == nil {
-		r.undecided("bind", "collection."+cat.Obj().Name(), "", "cannot bind the association list (ListLike) and key map fields")
+		r.skip("bind", "collection."+cat.Obj().Name(), "", "cannot bind the association list (ListLike) and key map fields")
 		return
 	}
 	ms := c.methodsOf(cat)
